@@ -185,3 +185,16 @@ fn c02_arrayvec_drop_concrete() {
     }
     kani::cover!(which == 1);
 }
+
+// a wider float is never accepted by the f32 accessor: `fb` + any 8 bytes is an error and a position within the input
+// @harness name=c12_f32_rejects_f64 props=C12,C04 kind=complete
+#[kani::proof]
+fn c12_f32_rejects_f64() {
+    let b: [u8; 8] = kani::any();
+    let buf = [0xfbu8, b[0], b[1], b[2], b[3], b[4], b[5], b[6], b[7], 0x00];
+    let mut d = Decoder::new(&buf);
+    let r = d.f32();
+    assert!(r.is_err());
+    assert!(d.position() <= buf.len());
+    kani::cover!(true);
+}
